@@ -13,15 +13,15 @@ open Echse.Spec.Cal Echse.Spec.RuleExt Echse.Lemmas.RrMlyRfc
 def MdaySel (ds : List Int) (x : Inst) : Prop :=
   ∃ n ∈ ds, (0 < n ∧ n = x.d) ∨ (n < 0 ∧ (monthLen x.y x.m : Int) + 1 + n = x.d)
 
-theorem mem_fillMlyYmd_split (cand : List Nat) (y mo : Nat) (ds : List Int) (wdMask c : Nat) :
-    c ∈ fillMlyYmd cand y mo ds wdMask ↔ c ∈ cand ∨ c ∈ fillMlyYmd [] y mo ds wdMask := by
+theorem mem_fillMlyYmd_split (cand : List Nat) (y mo : Nat) (ds : List Int) (dow : List Int) (wdMask c : Nat) :
+    c ∈ fillMlyYmd cand y mo ds dow wdMask ↔ c ∈ cand ∨ c ∈ fillMlyYmd [] y mo ds dow wdMask := by
   rw [mem_fillMlyYmd, mem_fillMlyYmd]
   simp
 
 /-- the month of a packed value a month's BYMONTHDAY builder adds -/
-theorem fillMlyYmd_month (y mo : Nat) (ds : List Int) (wdMask : Nat) (hm : 1 ≤ mo ∧ mo ≤ 12)
+theorem fillMlyYmd_month (y mo : Nat) (ds : List Int) (dow : List Int) (wdMask : Nat) (hm : 1 ≤ mo ∧ mo ≤ 12)
     (hds : ∀ dd ∈ ds, -31 ≤ dd ∧ dd ≤ 31) (x : Inst) (hx : DateIn x)
-    (h : packCand x.m x.d ∈ fillMlyYmd [] y mo ds wdMask) : mo = x.m := by
+    (h : packCand x.m x.d ∈ fillMlyYmd [] y mo ds dow wdMask) : mo = x.m := by
   rw [mem_fillMlyYmd] at h
   rcases h with h | ⟨dd0, hdd, d, hp, _, he⟩
   · cases h
@@ -30,31 +30,32 @@ theorem fillMlyYmd_month (y mo : Nat) (ds : List Int) (wdMask : Nat) (hm : 1 ≤
     exact ((packCand_inj ⟨hx.v.1, hx.v.2.1⟩ hx.v.d31 hm hd31 he).1).symm
 
 /-- BYMONTH × BYMONTHDAY (`fill_yly_ymd`) for a date -/
-theorem mem_yly_ymd_date (cand : List Nat) (ms : List Nat) (ds : List Int) (wdMask : Nat) (x : Inst) (hx : DateIn x)
-    (hms : ∀ m ∈ ms, 1 ≤ m ∧ m ≤ 12) (hds : ∀ dd ∈ ds, -31 ≤ dd ∧ dd ≤ 31) :
-    packCand x.m x.d ∈ fillYlyYmd cand x.y ms ds wdMask ↔ packCand x.m x.d ∈ cand ∨
-      (x.m ∈ ms ∧ MdaySel ds x ∧ (wdMask >>> 1 = 0 ∨ bit wdMask (wdayOf (dayOf x)) = true)) := by
+theorem mem_yly_ymd_date (cand : List Nat) (ms : List Nat) (ds : List Int) (dow : List Int) (wdMask : Nat) (x : Inst)
+    (hx : DateIn x) (hms : ∀ m ∈ ms, 1 ≤ m ∧ m ≤ 12) (hds : ∀ dd ∈ ds, -31 ≤ dd ∧ dd ≤ 31) :
+    packCand x.m x.d ∈ fillYlyYmd cand x.y ms ds dow wdMask ↔ packCand x.m x.d ∈ cand ∨
+      (x.m ∈ ms ∧ MdaySel ds x ∧ DLimB dow wdMask x.y x.m x.d (wdayOf (dayOf x)) true) := by
   unfold fillYlyYmd
-  rw [mem_foldl_nest _ (fun m c => c ∈ fillMlyYmd [] x.y m ds wdMask)
-    (fun c m z => mem_fillMlyYmd_split c x.y m ds wdMask z)]
+  rw [mem_foldl_nest _ (fun m c => c ∈ fillMlyYmd [] x.y m ds dow wdMask)
+    (fun c m z => mem_fillMlyYmd_split c x.y m ds dow wdMask z)]
   apply or_congr Iff.rfl
   constructor
   · rintro ⟨m, hm, h⟩
-    have e := fillMlyYmd_month x.y m ds wdMask (hms m hm) hds x hx h
+    have e := fillMlyYmd_month x.y m ds dow wdMask (hms m hm) hds x hx h
     subst e
-    exact ⟨hm, (mem_ymd_date ds wdMask x hx hds).1 h⟩
+    exact ⟨hm, (mem_ymd_date ds dow wdMask x hx hds).1 h⟩
   · rintro ⟨hm, h⟩
-    exact ⟨x.m, hm, (mem_ymd_date ds wdMask x hx hds).2 h⟩
+    exact ⟨x.m, hm, (mem_ymd_date ds dow wdMask x hx hds).2 h⟩
 
 /-- the selection `fill_yly_ymd_all_m` makes for one month and one BYMONTHDAY value -/
-def ymdSelM (y m wdMask : Nat) (dd0 : Int) : Option Nat :=
+def ymdSelM (dow : List Int) (y m wdMask : Nat) (dd0 : Int) : Option Nat :=
   match pickDom dd0 (getNdom y m) with
   | none => none
-  | some dd => if wdMask ≠ 0 ∧ !bit wdMask (ymdGetWday y m dd) then none else some (packCand m dd)
+  | some dd =>
+    if wdMask ≠ 0 ∧ !dowLimitP dow wdMask y m dd (ymdGetWday y m dd) false then none else some (packCand m dd)
 
-theorem fillYlyYmdAllM_eq (cand : List Nat) (y : Nat) (ds : List Int) (wdMask : Nat) :
-    fillYlyYmdAllM cand y ds wdMask =
-      (List.range 12).foldl (fun cand i => ds.foldl (fun cand a => assO cand (ymdSelM y (i + 1) wdMask a)) cand) cand := by
+theorem fillYlyYmdAllM_eq (cand : List Nat) (y : Nat) (ds : List Int) (dow : List Int) (wdMask : Nat) :
+    fillYlyYmdAllM cand y ds dow wdMask =
+      (List.range 12).foldl (fun cand i => ds.foldl (fun cand a => assO cand (ymdSelM dow y (i + 1) wdMask a)) cand) cand := by
   unfold fillYlyYmdAllM
   congr 1
   funext cand i
@@ -68,38 +69,31 @@ theorem fillYlyYmdAllM_eq (cand : List Nat) (y : Nat) (ds : List Int) (wdMask : 
     dsimp only
     split <;> rfl
 
-theorem ymdSelM_some (y m wdMask : Nat) (dd0 : Int) (c : Nat) :
-    ymdSelM y m wdMask dd0 = some c ↔ ∃ d, pickDom dd0 (getNdom y m) = some d ∧
-      (wdMask = 0 ∨ bit wdMask (ymdGetWday y m d) = true) ∧ c = packCand m d := by
+theorem ymdSelM_some (dow : List Int) (y m wdMask : Nat) (dd0 : Int) (c : Nat) :
+    ymdSelM dow y m wdMask dd0 = some c ↔ ∃ d, pickDom dd0 (getNdom y m) = some d ∧
+      DLimB dow wdMask y m d (ymdGetWday y m d) false ∧ c = packCand m d := by
   unfold ymdSelM
   cases pickDom dd0 (getNdom y m) with
   | none => simp
   | some dd =>
     dsimp only
-    by_cases h : wdMask ≠ 0 ∧ (!bit wdMask (ymdGetWday y m dd)) = true
+    by_cases h : wdMask ≠ 0 ∧ (!dowLimitP dow wdMask y m dd (ymdGetWday y m dd) false) = true
     · rw [if_pos h]
       simp only [reduceCtorEq, Option.some.injEq, false_iff]
-      rintro ⟨d, rfl, h1 | h1, _⟩
-      · exact h.1 h1
-      · rw [h1] at h; exact absurd h.2 (by decide)
+      rintro ⟨d, rfl, h1, _⟩
+      exact (dlimB_neg _ _ _ _ _ _ _).2 h1 h
     · rw [if_neg h]
       simp only [Option.some.injEq]
       constructor
       · intro e
-        refine ⟨dd, rfl, ?_, e.symm⟩
-        by_cases c1 : wdMask = 0
-        · exact Or.inl c1
-        · right
-          cases hb : bit wdMask (ymdGetWday y m dd) with
-          | true => rfl
-          | false => exact absurd ⟨c1, by rw [hb]; rfl⟩ h
+        exact ⟨dd, rfl, (dlimB_neg _ _ _ _ _ _ _).1 h, e.symm⟩
       · rintro ⟨d, rfl, _, e⟩; exact e.symm
 
 /-- BYMONTHDAY in all twelve months (`fill_yly_ymd_all_m`) for a date -/
-theorem mem_yly_ymdAllM_date (cand : List Nat) (ds : List Int) (wdMask : Nat) (x : Inst) (hx : DateIn x)
+theorem mem_yly_ymdAllM_date (cand : List Nat) (ds : List Int) (dow : List Int) (wdMask : Nat) (x : Inst) (hx : DateIn x)
     (hds : ∀ dd ∈ ds, -31 ≤ dd ∧ dd ≤ 31) :
-    packCand x.m x.d ∈ fillYlyYmdAllM cand x.y ds wdMask ↔ packCand x.m x.d ∈ cand ∨
-      (MdaySel ds x ∧ (wdMask = 0 ∨ bit wdMask (wdayOf (dayOf x)) = true)) := by
+    packCand x.m x.d ∈ fillYlyYmdAllM cand x.y ds dow wdMask ↔ packCand x.m x.d ∈ cand ∨
+      (MdaySel ds x ∧ DLimB dow wdMask x.y x.m x.d (wdayOf (dayOf x)) false) := by
   have hv := hx.v
   have h31 := hv.d31
   have hwd : ymdGetWday x.y x.m x.d = wdayOf (dayOf x) := hx.wd x.d h31
@@ -107,12 +101,12 @@ theorem mem_yly_ymdAllM_date (cand : List Nat) (ds : List Int) (wdMask : Nat) (x
   have hm1 := hv.1
   have hm2 := hv.2.1
   rw [fillYlyYmdAllM_eq]
-  rw [mem_foldl_nest _ (fun i c => ∃ a ∈ ds, ymdSelM x.y (i + 1) wdMask a = some c)
-    (fun c i z => mem_foldl_assO (ymdSelM x.y (i + 1) wdMask) ds c z)]
+  rw [mem_foldl_nest _ (fun i c => ∃ a ∈ ds, ymdSelM dow x.y (i + 1) wdMask a = some c)
+    (fun c i z => mem_foldl_assO (ymdSelM dow x.y (i + 1) wdMask) ds c z)]
   apply or_congr Iff.rfl
   constructor
   · rintro ⟨i, hi, dd0, hdd, hs⟩
-    obtain ⟨d, hp, hw, he⟩ := (ymdSelM_some _ _ _ _ _).1 hs
+    obtain ⟨d, hp, hw, he⟩ := (ymdSelM_some _ _ _ _ _ _).1 hs
     have hi' : i < 12 := List.mem_range.mp hi
     have hd := pickDom_ok dd0 _ d (hds dd0 hdd) (getNdom_le _ _) hp
     have hd31 : d ≤ 31 := by have := getNdom_le x.y (i + 1); omega
@@ -125,7 +119,7 @@ theorem mem_yly_ymdAllM_date (cand : List Nat) (ds : List Int) (wdMask : Nat) (x
     refine ⟨x.m - 1, List.mem_range.mpr (by omega), n, hn, ?_⟩
     have e : x.m - 1 + 1 = x.m := by omega
     rw [e]
-    refine (ymdSelM_some _ _ _ _ _).2 ⟨x.d, ?_, by rw [hwd]; exact hw, rfl⟩
+    refine (ymdSelM_some _ _ _ _ _ _).2 ⟨x.d, ?_, by rw [hwd]; exact hw, rfl⟩
     rw [hx.ndom]
     exact (pickDom_spec n _ x.d (hds n hn) hml).2 ⟨hv.2.2.1, hv.2.2.2, hc⟩
 
